@@ -31,6 +31,7 @@ RULE = ("exact grid (exhaustive, same for every seed): wraps from a list of 17 m
         "(1e-320..1e-9), ordinary, large (..1e15), huge (..1e300), exact and near multiples of the wrap, wraps "
         "360/180/pi/2pi/random/negative/tiny/1e300 (|wrap| <= 1e300 so 2*wrap is finite); distinct = distinct "
         "(function, arguments); non-trivial = wrap != 0 and finite arguments")
+RULE = __import__("vf.core", fromlist=["rule_add"]).rule_add(RULE, 'the functions are also reached through their older names (navigating.Wrap2 / Delta, ioflo.base.aiding) and with keyword wrap')
 META = {"engine": "C function",
         "technique": "statement predicates evaluated in exact rational arithmetic on exact grid + random floats",
         "level_text": "exploration: the rational grid is enumerated completely, floats are sampled by magnitude class; "
